@@ -151,6 +151,10 @@ fn render_scanner_config_string(
         scanner_directives.push_str(&format!("{indent}%auto_ws_off\n"));
     }
 
+    if scanner_config.allow_unmatched {
+        scanner_directives.push_str(&format!("{indent}%allow_unmatched\n"));
+    }
+
     let mut skip_tokens = scanner_config
         .skip_tokens
         .iter()
